@@ -26,9 +26,11 @@ def apply(spec):
     """spec = dict(target=..., old=..., new=...)"""
     f = _resolve(spec["target"])
     src = inspect.getsource(f)  # patterns are written with the indentation of the file
-    if src.count(spec["old"]) != 1:
-        raise RuntimeError(f"mutant {spec.get('name')}: pattern occurs {src.count(spec['old'])} times in {spec['target']}")
-    src = textwrap.dedent(src.replace(spec["old"], spec["new"]))
+    for old, new in spec.get("edits") or [(spec["old"], spec["new"])]:
+        if src.count(old) != 1:
+            raise RuntimeError(f"mutant {spec.get('name')}: pattern occurs {src.count(old)} times in {spec['target']}")
+        src = src.replace(old, new)
+    src = textwrap.dedent(src)
     # strip decorators (property/staticmethod/...): we only need the code object
     lines = src.split("\n")
     while lines and lines[0].lstrip().startswith("@"):
